@@ -156,7 +156,6 @@ def _group_integrands_by_quadrature_rule(
     """
     #
     grouped_integrands: dict[basix.CellType, dict[QuadratureRule, list[Expr]]] = {}
-    # NOTE: this variable changes throughout the loop
     cell_type = basix_cell_from_string(ufl_cell.cellname)
     use_sum_factorization = sum_factorization and integral_type == "cell"
     for integral in integrals:
@@ -178,24 +177,27 @@ def _group_integrands_by_quadrature_rule(
             # prescribed in certain cases.
 
             degree = md["quadrature_degree"]
+            # Cell type of the integration entity (the cell type itself must
+            # stay unchanged for the other integrals of this group)
+            entity_cell_type = cell_type
             if "facet" in integral_type:
                 facet_types = basix.cell.subentity_types(cell_type)[-2]
                 assert len(set(facet_types)) == 1
-                cell_type = facet_types[0]
+                entity_cell_type = facet_types[0]
             elif integral_type == "ridge":
                 ridge_types = basix.cell.subentity_types(cell_type)[-3]
                 assert len(set(ridge_types)) == 1
-                cell_type = ridge_types[0]
+                entity_cell_type = ridge_types[0]
 
             if degree > 1:
                 warnings.warn(
                     "Explicitly selected vertex quadrature (degree 1), "
                     f"but requested degree is {degree}."
                 )
-            points = basix.cell.geometry(cell_type)
-            cell_volume = basix.cell.volume(cell_type)
+            points = basix.cell.geometry(entity_cell_type)
+            cell_volume = basix.cell.volume(entity_cell_type)
             weights = np.full(points.shape[0], cell_volume / points.shape[0], dtype=points.dtype)
-            rules[cell_type] = (points, weights, None)
+            rules[entity_cell_type] = (points, weights, None)
         else:
             degree = md["quadrature_degree"]
             points, weights, tensor_factors = create_quadrature_points_and_weights(
@@ -215,16 +217,16 @@ def _group_integrands_by_quadrature_rule(
                 for i in points
             }
 
-        for cell_type, (points, weights, tensor_factors) in rules.items():
+        for rule_cell_type, (points, weights, tensor_factors) in rules.items():
             points = np.asarray(points)
             weights = np.asarray(weights)
             rule = QuadratureRule(points, weights, tensor_factors)
 
-            if cell_type not in grouped_integrands:
-                grouped_integrands[cell_type] = {}
-            if rule not in grouped_integrands[cell_type]:
-                grouped_integrands[cell_type][rule] = []
-            grouped_integrands[cell_type][rule].append(integral.integrand())
+            if rule_cell_type not in grouped_integrands:
+                grouped_integrands[rule_cell_type] = {}
+            if rule not in grouped_integrands[rule_cell_type]:
+                grouped_integrands[rule_cell_type][rule] = []
+            grouped_integrands[rule_cell_type][rule].append(integral.integrand())
     return grouped_integrands
 
 
